@@ -792,6 +792,49 @@ def int_dither_bias(ctx, np, pre):
                  kind="impl", key=KEY_INT_BIAS)
 
 
+def retuned_oracle(ctx, np, pre):
+    """The documented public attribute `coeff` may be re-assigned on an existing pre-processor (e.g. one object re-used
+    while a coefficient is swept): afterwards the object must behave exactly like one constructed with the new value."""
+    r = ctx.rng
+    for k in range(ctx.scale(80, 800)):
+        which = "preemph" if k % 2 == 0 else "dither"
+        cls = pre.Preemphasize if which == "preemph" else pre.Dither
+        c0 = rand_coeff(r, nonneg=(which == "dither"))
+        c1 = rand_coeff(r, nonneg=(which == "dither"))
+        if c1 is None:
+            c1 = 0.97 if which == "preemph" else 1.0
+        dtn, _ = r.choice(DTYPES)
+        dt = np.dtype(dtn)
+        x = rand_values(r, np, dt, max(2, rand_len(r, 24)), r.choice(["small", "mid", "dyadic"]))
+        ip = r.random() < 0.3
+        seed = r.randrange(2 ** 32)
+        used = r.random() < 0.5
+        ctx.count("retuned:%s" % which)
+
+        def run(obj):
+            np.random.seed(seed)
+            return obj.apply(x.copy(), in_place=ip)
+
+        try:
+            obj = cls() if c0 is None else cls(c0)
+            if used:
+                run(obj)
+            obj.coeff = c1
+            got = run(obj)
+            want = run(cls(c1))
+        except Exception as e:  # noqa: BLE001
+            ctx.fail("%s: re-assigning coeff then apply raised %s: %s" % (cls.__name__, type(e).__name__, e),
+                     dict(check="retuned-" + which, input=dict(which=which, constructed_with=repr(c0), coeff=repr(c1), dtype=dtn, x=jlist(x),
+                                                                in_place=ip, seed=seed, used_before=used)), kind="impl")
+            break
+        ctx.case(dict(oracle="retuned-" + which, dtype=dtn, n=len(x), c0=repr(c0), c1=repr(c1), used=used), nontrivial=True)
+        if got.dtype != want.dtype or got.shape != want.shape or not np.array_equal(got, want, equal_nan=(dt.kind == "f")):
+            ctx.fail("%s constructed with coeff %r and then given coeff = %r does not behave like %s(%r)" % (cls.__name__, c0, c1, cls.__name__, c1),
+                     dict(check="retuned-" + which, input=dict(which=which, constructed_with=repr(c0), coeff=repr(c1), dtype=dtn, x=jlist(x), in_place=ip,
+                                                                seed=seed, used_before=used), got=jlist(got), fresh_object=jlist(want)), kind="impl")
+            break
+
+
 def torch_oracle(ctx, np, torch, pt, pre):
     r = ctx.rng
     for k in range(ctx.scale(60, 1000)):
@@ -887,6 +930,7 @@ def run(ctx):
     if have_model and ok_gen:
         check_defaults(ctx, pre, pt)
     oracle(ctx, np, pre)
+    retuned_oracle(ctx, np, pre)
     moments(ctx, np, pre)
     int_dither_bias(ctx, np, pre)
     if pt is not None:
